@@ -27,6 +27,7 @@ type c18Deferred struct {
 	Guard  []c18Conj
 	Opaque string // non-empty: the guard cannot be classified
 	Where  ssa.Instruction
+	Fr     *c18Frame // the frame whose returns run it
 }
 
 // c18ResultCells returns the allocs of named results of fn (cells whose load is returned).
@@ -81,6 +82,31 @@ func c18ClosureWrites(fn *ssa.Function) map[*ssa.Alloc]bool {
 		}
 	}
 	visit(fn)
+	allInstrs(fn, func(in ssa.Instruction) {
+		ci, ok := in.(ssa.CallInstruction)
+		if !ok {
+			return
+		}
+		callee := staticCallee(ci)
+		for i, a := range ci.Common().Args {
+			cell, ok := a.(*ssa.Alloc)
+			if !ok {
+				continue
+			}
+			if callee == nil || len(callee.Blocks) == 0 || i >= len(callee.Params) {
+				if _, isPtr := a.Type().Underlying().(*types.Pointer); isPtr && callee == nil && !ci.Common().IsInvoke() {
+					out[cell] = true // address handed to an unknown function
+				}
+				continue
+			}
+			pa := callee.Params[i]
+			for _, r := range refs(pa) {
+				if st, ok := r.(*ssa.Store); ok && st.Addr == ssa.Value(pa) {
+					out[cell] = true
+				}
+			}
+		}
+	})
 	return out
 }
 
@@ -104,10 +130,40 @@ func c18CollectDeferred(p *Prog, tt *c18Terms, fn *ssa.Function) (ds []*c18Defer
 			}
 		}
 		clo := staticCallee(d)
-		if clo == nil || clo.Parent() != fn {
-			return // not a closure literal of fn: left to c18CollectOps
+		if clo == nil || !c18IsModelledDefer(fn, d) {
+			return // neither a closure literal of fn nor a same-package function: left to the caller
 		}
+		// bind the parameters of the deferred function to the arguments evaluated at the defer statement
+		saved := tt.cur
+		nenv := c18Env{}
+		for k, v := range tt.cur {
+			nenv[k] = v
+		}
+		for i, pa := range clo.Params {
+			if i < len(d.Call.Args) {
+				nenv[pa] = tt.Term(d.Call.Args[i])
+			}
+		}
+		tt.cur = nenv
 		ops, unk := c18CollectOps(p, tt, clo)
+		tt.cur = saved
+		cellOf := func(v ssa.Value) *ssa.Alloc {
+			if c := c18CellOfFreeVarLoad(v); c != nil {
+				return c
+			}
+			// *param where the argument is the address of a local cell of fn
+			if u, ok := v.(*ssa.UnOp); ok && u.Op == token.MUL {
+				if pa, ok := u.X.(*ssa.Parameter); ok {
+					for i, q := range clo.Params {
+						if q == pa && i < len(d.Call.Args) {
+							a, _ := d.Call.Args[i].(*ssa.Alloc)
+							return a
+						}
+					}
+				}
+			}
+			return nil
+		}
 		for _, u := range unk {
 			unknown = append(unknown, "deferred closure: "+u)
 		}
@@ -123,9 +179,9 @@ func c18CollectDeferred(p *Prog, tt *c18Terms, fn *ssa.Function) (ds []*c18Defer
 					var cell *ssa.Alloc
 					switch {
 					case isNilConst(cmp.Y):
-						cell = c18CellOfFreeVarLoad(cmp.X)
+						cell = cellOf(cmp.X)
 					case isNilConst(cmp.X):
-						cell = c18CellOfFreeVarLoad(cmp.Y)
+						cell = cellOf(cmp.Y)
 					}
 					if cell != nil && results[cell] {
 						dd.Guard = append(dd.Guard, c18Conj{Kind: "err", Cell: cell, Val: cmp.Op == token.NEQ})
@@ -143,7 +199,7 @@ func c18CollectDeferred(p *Prog, tt *c18Terms, fn *ssa.Function) (ds []*c18Defer
 					}
 					break
 				}
-				if cell := c18CellOfFreeVarLoad(cond); cell != nil {
+				if cell := cellOf(cond); cell != nil {
 					if b, ok := cell.Type().Underlying().(*types.Pointer).Elem().Underlying().(*types.Basic); ok && b.Kind() == types.Bool {
 						dd.Guard = append(dd.Guard, c18Conj{Kind: "flag", Cell: cell, Val: val})
 						continue
@@ -165,7 +221,10 @@ func c18IsModelledDefer(fn *ssa.Function, d *ssa.Defer) bool {
 		}
 	}
 	clo := staticCallee(d)
-	return clo != nil && clo.Parent() == fn
+	if clo == nil || len(clo.Blocks) == 0 {
+		return false
+	}
+	return clo.Parent() == fn || (clo.Pkg != nil && clo.Pkg == fn.Pkg)
 }
 
 // c18ReturnErrKind: "nil" / "nonnil" / "unknown" for the error a return yields.
@@ -190,19 +249,44 @@ func c18ReturnErrKind(ret *ssa.Return, closureWrites map[*ssa.Alloc]bool) string
 					if isNilConst(st.Val) {
 						return "nil"
 					}
-					if c18KnownNonNil(blk, st.Val) {
+					if c18KnownNonNil(blk, st.Val) || c18FreshError(c18Root(st.Val)) {
 						return "nonnil"
 					}
 					return "unknown"
 				}
 			}
+			// bare `return` of a named result: the value is what the reaching store put there
+			if rv := c18Root(v); rv != v {
+				switch {
+				case isNilConst(rv) || c18KnownNil(blk, rv):
+					return "nil"
+				case c18KnownNonNil(blk, rv) || c18FreshError(rv):
+					return "nonnil"
+				}
+			}
 			return "unknown"
 		}
 	}
-	if c18KnownNonNil(blk, v) {
+	if c18KnownNonNil(blk, v) || c18FreshError(c18Root(v)) {
 		return "nonnil"
 	}
 	return "unknown"
+}
+
+// c18FreshError: v is a newly made error value (fmt.Errorf, errors.New, a concrete value boxed into error).
+func c18FreshError(v ssa.Value) bool {
+	switch x := v.(type) {
+	case *ssa.MakeInterface:
+		return true
+	case *ssa.Call:
+		if obj := calleeObj(x); obj != nil && obj.Pkg() != nil {
+			switch obj.Pkg().Path() + "." + obj.Name() {
+			case "fmt.Errorf", "errors.New":
+				return true
+			}
+		}
+	}
+	return false
 }
 
 // c18FlagFlow: must-values of captured bool cells. bit 2i = cell i known true, 2i+1 = known false.
